@@ -19,6 +19,8 @@ def client_hash(ch):
 
 def oracle(f, c):
     r = pyexc(f, c)
+    if r[0] == 'ok' and type(r[1]) is not int:
+        return f"server_verification_hash({c}) = {r[1]!r} is a {type(r[1]).__name__}, not an integer (it cannot be written as an EO number)"
     if r != ('ok', client_hash(c)):
         return f"server_verification_hash({c}) = {r}, client arithmetic gives {client_hash(c)}"
     if c <= 11092110 and not (0 <= r[1] < INT_MAX):
@@ -29,7 +31,7 @@ def oracle(f, c):
 def scan(f, lo, hi):
     for c in range(lo, hi):
         h = f(c)
-        if h != client_hash(c) or (c <= 11092110 and not (0 <= h < INT_MAX)):
+        if type(h) is not int or h != client_hash(c) or (c <= 11092110 and not (0 <= h < INT_MAX)):
             return c
     return None
 
